@@ -24,6 +24,10 @@ import PgProofs.GenoRandom
 import PgProofs.GenoOdo3
 import PgProofs.GenoIncr
 import PgProofs.GenoCount
+import PgProofs.GenoInf
+import PgProofs.GenoRandomPrev
+import PgProofs.GenoAttach
+import PgProofs.GenoHooks
 import PgGen.C11Tables
 namespace Pg.Geno
 
@@ -89,6 +93,18 @@ theorem C11_random (g : Spec) (o : List Draw) (d : DNA) (rest : List Draw)
     (h : g.random o = some (d, rest)) : Valid g d :=
   random_valid g o d rest h
 
+/-- `space_size == -1` propagates through every combinator: a spec (of any shape) reports an
+infinite size exactly when it contains a float or a custom decision point. -/
+theorem C11_size_infinite (g : Spec) : g.size = none ↔ g.finite = false :=
+  size_none_iff g
+
+/-- `random_dna(rng, previous_dna=p)` returns a member for EVERY oracle stream and EVERY `p`
+(member or not, bound or malformed): whenever the call returns at all it returns exactly what
+the call without `previous_dna` returns on the same draws. -/
+theorem C11_random_previous (g : Spec) (prev : Option DNA) (o : List Draw) (d : DNA) (rest : List Draw)
+    (h : g.randomPrev prev o = some (d, rest)) : g.random o = some (d, rest) ∧ Valid g d :=
+  ⟨randomPrev_some g prev o (d, rest) h, random_valid g o d rest (randomPrev_some g prev o (d, rest) h)⟩
+
 /-! ### Proved in full: the odometer theorem for every finite well-formed spec -/
 
 /-- `first_dna()` is the first member. -/
@@ -101,6 +117,39 @@ position, `next_value_for_choice` and `min_remaining_choices` (with the monotone
 lemma) included, in every distinct × sorted mode and under any nesting of conditional spaces. -/
 theorem C11_next : C11_next_Full :=
   fun g hf hw => (specOk_all g hf hw).next
+
+/-- `attach_spec`: `first_dna` / `next_dna` / `iter_dna` compute the raw tree (`Spec.first`,
+`Spec.next` — what `attach_spec=False` returns, so `C11_first`, `C11_next`, `C11_iter` ARE the
+statements for `attach_spec=False`) and with `attach_spec=True` bind it (`use_spec`); on a finite
+well-formed spec that binding never fails, for the first DNA and for every successor of a member. -/
+theorem C11_attach_spec (g : Spec) (hf : g.finite = true) (hw : g.wf = true) :
+    (g.all ≠ [] → g.bind g.first = true) ∧
+    ∀ d ∈ g.all, ∀ d', g.next d = some (some d') → g.bind d' = true :=
+  ⟨first_binds g hf hw, fun d hd d' h => next_binds g hf hw d hd d' h⟩
+
+/-! ### Custom decision points: the user hooks as parameters -/
+
+/-- CONSERVATIVITY: on a spec without custom decision points `first_dna`, `next_dna` and `iter_dna`
+do not depend on the hooks at all (so every theorem of this file holds verbatim for the hooked
+functions on such specs). -/
+theorem C11_hooks_conservative (hk : Hooks) (g : Spec) (hc : g.noCustom = true) :
+    g.firstH hk = g.first ∧ (∀ d, g.nextH hk d = g.next d) ∧ ∀ fuel, g.iterH hk fuel = g.iter fuel :=
+  ⟨Spec.firstH_eq hk g hc, Spec.nextH_eq hk g hc, Spec.iterH_eq hk g hc⟩
+
+/-- THE CONTRACT IS SATISFIABLE: the hooks the harness installs (`next_dna_fn` walking a list of
+pairwise different strings) meet `HookContract`. -/
+theorem C11_list_hooks_contract (tbl : Info → Option (List String)) (info : Info) (L : List String)
+    (ht : tbl info = some L) (hne : L ≠ []) (hnd : L.Nodup) : HookContract (listHooks tbl) info L :=
+  listHooks_contract tbl info L ht hne hnd
+
+/-- EXACT ENUMERATION THROUGH A HOOK: a custom decision point whose hook meets the contract for the
+list `L` iterates exactly `L` — every element once, in order — and then ends. (Custom points
+inside spaces and conditional candidates go through the same `Space._next_dna` / odometer code as
+any other element; those compositions are compared with the code on every run.) -/
+theorem C11_custom_point_iter (hk : Hooks) (info : Info) (L : List String) (hc : HookContract hk info L)
+    (fuel : Nat) (hf : L.length < fuel) :
+    (Spec.point (.custom info)).iterH hk fuel = some (L.map fun t => .mk (.str t) [], true) :=
+  iterH_custom hk info L hc fuel hf
 
 /-- The enumeration has no repetition. -/
 theorem C11_all_nodup (g : Spec) (hf : g.finite = true) (hw : g.wf = true) : g.all.Nodup :=
@@ -260,6 +309,7 @@ example : ∀ d s, (exampleMulti d s).finite = true ∧ (exampleMulti d s).wf = 
 example : ∀ d s, (exampleMulti d s).iter 40 = some ((exampleMulti d s).all, true) := by decide
 example : ∀ d s, (exampleMulti d s).size = some (exampleMulti d s).all.length := by decide
 example : ((exampleMulti true true).random [.sample [2, 1], .sample [0]]).isSome = true := by decide
+example : ((exampleMulti true true).randomPrev (some (exampleMulti true true).first) [.sample [2, 1], .sample [0]]).isSome = true := by decide
 example : ((exampleMulti false true).random [.randint 1, .randint 1, .sample [1], .sample [0]]).isSome = true := by decide
 example : (exampleMulti true true).all.length = 5 ∧ (exampleMulti false false).all.length = 16 := by decide
 
